@@ -9,7 +9,7 @@ Outcome dictionary (same shape as model.py produces):
   rest: str                 unread standard input
   fs: {path: bytes}         regular files under the scratch directory afterwards
 """
-import io, os, sys, signal, shutil, tempfile, traceback
+import gc, io, os, sys, signal, shutil, tempfile, traceback
 from .common import REPO
 
 if REPO not in sys.path:
@@ -141,6 +141,7 @@ def run(fn, stdin: str = '', fs=None, timeout: float = 5.0, reset_registry: bool
             res.setdefault('rest', '')
         sys.stdin, sys.stdout = old[0], old[1]
         os.chdir(old[2])
+        gc.collect()           # unreferenced file objects flush their buffers when collected
         res['fs'] = sb.snapshot()
     return res
 
